@@ -105,9 +105,15 @@ Proof.
     try (apply N.eqb_eq in H; lia).
 Qed.
 
+Lemma is_surrogate_range (c : char) : is_surrogate c = true -> (55296 <= c <= 57343)%N.
+Proof.
+  unfold is_surrogate. intros H. apply andb_prop in H. destruct H as [H1 H2].
+  apply N.leb_le in H1, H2. lia.
+Qed.
+
 Definition nc_ok (idx : N) : bool :=
   let p := next_char idx in
-  negb (is_space (fst p)) && (idx <=? fst p)%N && (snd p =? fst p + 1)%N.
+  negb (skipped (fst p)) && (idx <=? fst p)%N && (snd p =? fst p + 1)%N.
 
 Lemma nc_ok_small : forallN nc_ok 12289 = true.
 Proof. vm_compute. reflexivity. Qed.
@@ -117,8 +123,12 @@ Lemma next_char_fuel_S (f : nat) (idx : N) :
   = if is_space idx then next_char_fuel f (idx + 1)%N else (idx, (idx + 1)%N).
 Proof. reflexivity. Qed.
 
-Lemma next_char_nonspace (idx : N) : is_space idx = false -> next_char idx = (idx, (idx + 1)%N).
-Proof. intros H. unfold next_char. rewrite next_char_fuel_S, H. reflexivity. Qed.
+Lemma next_char_nonspace (idx : N) :
+  is_space idx = false -> is_surrogate idx = false -> next_char idx = (idx, (idx + 1)%N).
+Proof. intros H Hs. unfold next_char. rewrite Hs, next_char_fuel_S, H. reflexivity. Qed.
+
+Lemma next_char_surrogate (idx : N) : is_surrogate idx = true -> next_char idx = (57344, 57345)%N.
+Proof. intros Hs. unfold next_char. rewrite Hs. vm_compute. reflexivity. Qed.
 
 Lemma nc_ok_all (idx : N) : nc_ok idx = true.
 Proof.
@@ -126,15 +136,57 @@ Proof.
   - exact (forallN_spec nc_ok 12289 nc_ok_small idx Hlt).
   - assert (Hs : is_space idx = false).
     { destruct (is_space idx) eqn:E; [|reflexivity]. apply is_space_le in E. lia. }
-    unfold nc_ok. rewrite (next_char_nonspace idx Hs). cbn [fst snd]. rewrite Hs.
-    rewrite N.leb_refl, N.eqb_refl. reflexivity.
+    destruct (is_surrogate idx) eqn:Hg.
+    + apply is_surrogate_range in Hg. unfold nc_ok. rewrite (next_char_surrogate idx).
+      * cbn [fst snd]. replace (skipped 57344) with false by (vm_compute; reflexivity).
+        cbn [negb andb]. apply andb_true_intro. split; [apply N.leb_le; lia|reflexivity].
+      * unfold is_surrogate. apply andb_true_intro. split; apply N.leb_le; lia.
+    + unfold nc_ok. rewrite (next_char_nonspace idx Hs Hg). cbn [fst snd].
+      unfold skipped. rewrite Hs, Hg. cbn [orb negb andb].
+      rewrite N.leb_refl, N.eqb_refl. reflexivity.
 Qed.
 
-Theorem next_char_no_space : forall idx : N, is_space (fst (next_char idx)) = false.
+Theorem next_char_not_skipped : forall idx : N, skipped (fst (next_char idx)) = false.
 Proof.
   intros idx. pose proof (nc_ok_all idx) as H. unfold nc_ok in H. cbn zeta in H.
   apply andb_prop in H. destruct H as [H _]. apply andb_prop in H. destruct H as [H _].
   now apply negb_true_iff in H.
+Qed.
+
+Theorem next_char_no_space : forall idx : N, is_space (fst (next_char idx)) = false.
+Proof.
+  intros idx. pose proof (next_char_not_skipped idx) as H. unfold skipped in H.
+  apply orb_false_iff in H. exact (proj1 H).
+Qed.
+
+(* the code points handed to the program can be utf8 encoded (none is a surrogate) *)
+Theorem next_char_no_surrogate : forall idx : N, is_surrogate (fst (next_char idx)) = false.
+Proof.
+  intros idx. pose proof (next_char_not_skipped idx) as H. unfold skipped in H.
+  apply orb_false_iff in H. exact (proj2 H).
+Qed.
+
+(* the closed form is the loop of UnicodeGenerator.__call__ *)
+Definition loop_eq_b (idx : N) : bool :=
+  let a := next_char_loop idx in let b := next_char idx in (fst a =? fst b)%N && (snd a =? snd b)%N.
+Lemma loop_eq_small : forallN loop_eq_b 57344 = true.
+Proof. vm_compute. reflexivity. Qed.
+Lemma next_char_loop_fuel_S (f : nat) (idx : N) :
+  next_char_loop_fuel (S f) idx
+  = if skipped idx then next_char_loop_fuel f (idx + 1)%N else (idx, (idx + 1)%N).
+Proof. reflexivity. Qed.
+Theorem next_char_loop_eq : forall idx : N, next_char_loop idx = next_char idx.
+Proof.
+  intros idx. destruct (N.lt_ge_cases idx 57344) as [Hlt|Hge].
+  - pose proof (forallN_spec loop_eq_b 57344 loop_eq_small idx Hlt) as H. unfold loop_eq_b in H. cbn zeta in H.
+    apply andb_prop in H. destruct H as [H1 H2]. apply N.eqb_eq in H1, H2.
+    destruct (next_char_loop idx), (next_char idx). cbn [fst snd] in *. now subst.
+  - assert (Hs : is_space idx = false).
+    { destruct (is_space idx) eqn:E; [|reflexivity]. apply is_space_le in E. lia. }
+    assert (Hg : is_surrogate idx = false).
+    { destruct (is_surrogate idx) eqn:E; [|reflexivity]. apply is_surrogate_range in E. lia. }
+    rewrite (next_char_nonspace idx Hs Hg). unfold next_char_loop. change 2064 with (S 2063).
+    rewrite next_char_loop_fuel_S. unfold skipped at 1. rewrite Hs, Hg. reflexivity.
 Qed.
 
 Theorem next_char_ge : forall idx : N,
@@ -189,6 +241,22 @@ Qed.
 Theorem unicode_mapping_no_space : forall order : list str,
   Forall (fun kc : str * N => is_space (snd kc) = false) (unicode_mapping order).
 Proof. intros order. apply build_mapping_no_space. Qed.
+
+Lemma build_mapping_no_surrogate (order : list str) (idx : N) :
+  Forall (fun kc : str * N => is_surrogate (snd kc) = false) (build_mapping order idx).
+Proof.
+  revert idx. induction order as [|u r IH]; intros idx; [constructor|].
+  rewrite build_mapping_cons. constructor; [apply next_char_no_surrogate|apply IH].
+Qed.
+
+(* every unit is recoded to a code point that utf8 can encode: the text always reaches the program *)
+Theorem unicode_mapping_no_surrogate : forall order : list str,
+  Forall (fun kc : str * N => is_surrogate (snd kc) = false) (unicode_mapping order).
+Proof. intros order. apply build_mapping_no_surrogate. Qed.
+
+(* the 52296th unit onwards: the code points jump over U+D800..U+DFFF *)
+Example next_char_jumps_surrogates : next_char 55296 = (57344, 57345)%N /\ next_char 55295 = (55295, 55296)%N.
+Proof. vm_compute. split; reflexivity. Qed.
 
 Lemma build_mapping_keys (order : list str) (idx : N) :
   map fst (build_mapping order idx) = order.
@@ -1044,18 +1112,23 @@ Definition nc_first (idx : N) : bool :=
 Lemma nc_first_small : forallN nc_first 12289 = true.
 Proof. vm_compute. reflexivity. Qed.
 
-(* next_char returns the first non-whitespace code point from idx on *)
+(* next_char returns the first code point from idx on that is neither whitespace nor a surrogate *)
 Theorem next_char_first : forall idx j : N,
-  (idx <= j)%N -> (j < fst (next_char idx))%N -> is_space j = true.
+  (idx <= j)%N -> (j < fst (next_char idx))%N -> skipped j = true.
 Proof.
   intros idx j H1 H2. destruct (N.lt_ge_cases idx 12289) as [Hlt|Hge].
   - pose proof (forallN_spec nc_first 12289 nc_first_small idx Hlt) as H.
     unfold nc_first in H. cbn zeta in H.
     pose proof (forallN_spec _ _ H (j - idx)%N) as H'. cbn beta in H'.
-    replace (idx + (j - idx))%N with j in H' by lia. apply H'. lia.
+    replace (idx + (j - idx))%N with j in H' by lia. unfold skipped. rewrite H'; [reflexivity|lia].
   - assert (Hs : is_space idx = false).
     { destruct (is_space idx) eqn:E; [|reflexivity]. apply is_space_le in E. lia. }
-    rewrite (next_char_nonspace idx Hs) in H2. cbn [fst] in H2. lia.
+    destruct (is_surrogate idx) eqn:Hg.
+    + pose proof (is_surrogate_range idx Hg) as Hr.
+      rewrite (next_char_surrogate idx Hg) in H2. cbn [fst] in H2.
+      unfold skipped. replace (is_surrogate j) with true; [apply orb_true_r|].
+      symmetry. unfold is_surrogate. apply andb_true_intro. split; apply N.leb_le; lia.
+    + rewrite (next_char_nonspace idx Hs Hg) in H2. cbn [fst] in H2. lia.
 Qed.
 
 Print Assumptions dpseg_pipeline_aligned.
